@@ -1257,9 +1257,43 @@ class Routing:
         want = ['model_type', 'culture', 'options']
         lookups = [c for p in pe.paths for c in self_calls(p, 'get_model_from_cache')]
         lookups = list({id(c): c for c in lookups}.values())
-        if not lookups:
-            raise AnalysisError('%s %s never calls get_model_from_cache' % (mod.rel, what))
-        roles = self._own_roles(fn, lookups, rd, rd_roles, what, want)
+        ps = params_of(fn)
+        inline = {}
+        for p in pe.paths:
+            for e in path_nodes(p):
+                for n in ast.walk(e):
+                    if isinstance(n, ast.Call) and isinstance(n.func, ast.Attribute) and n.func.attr in ('get', 'setdefault') \
+                            and self.is_cache(n.func.value) and n.args and id(n) not in inline:
+                        inline[id(n)] = (p, n)
+        if not lookups and not inline:
+            raise AnalysisError('%s %s never consults the model cache (no get_model_from_cache call, no read of %s)'
+                                % (mod.rel, what, sorted(self.cache_attrs)))
+        roles = self._own_roles(fn, lookups, rd, rd_roles, what, want) if lookups else {}
+        # the cache read inline (ModelFactory.__cache.get(key) / .setdefault(key, ...)): the key decides the verdict
+        for p, n in inline.values():
+            key = p.expand(n.args[0])
+            kc = key if isinstance(key, ast.Call) and isinstance(key.func, ast.Name) and key.func.id in ('CacheKey', 'ModelCtorKey') \
+                else None
+            if kc is None:
+                self.finding(False, 'C17.triple', mod, what + ' inline cache access', '.%s(%s)' % (n.func.attr, ast.unparse(key)),
+                             'the model cache is accessed under a key that is not a CacheKey(...)', n.lineno)
+                continue
+            byrole = self.key_call_roles(kc, kc.func.id, what)
+            for r, a in byrole.items():
+                if isinstance(a, ast.Name) and a.id in ps:
+                    roles.setdefault(a.id, r)
+            missing = [r for r in want if not (isinstance(byrole.get(r), ast.Name) and roles.get(byrole[r].id) == r)]
+            self.finding(kc.func.id == 'CacheKey' and not missing, 'C17.triple', mod, what + ' inline cache .%s' % n.func.attr,
+                         '%s(%s)' % (kc.func.id, ', '.join('%s<-%s' % (r, ('$' + r) if r not in missing else
+                                                                ('missing' if r not in byrole else ast.unparse(byrole[r])))
+                                                       for r in want)),
+                         'the process-wide model cache is accessed under %s without %s: models built for one value are served '
+                         'for every other' % (kc.func.id, ', '.join(missing)), n.lineno)
+        if not lookups and len(ps) == 3:
+            left = [r for r in want if r not in roles.values()]
+            free = [q for q in ps if q not in roles]
+            if len(left) == 1 and len(free) == 1:
+                roles[free[0]] = left[0]          # role hidden by the violation above: the remaining parameter
         self.roles['try_get_model'] = roles
 
         def triple(byrole):
@@ -1287,7 +1321,18 @@ class Routing:
             if e is None or is_none(e):
                 continue
             val = p.syms.get(e.id) if isinstance(e, ast.Name) and e.id.startswith(SYM) else e
-            if isinstance(val, ast.Call) and self_attr(val.func, 'get_model_from_cache'):
+            inline_call = isinstance(val, ast.Call) and id(val) in inline
+            if inline_call and val.func.attr == 'setdefault':
+                built = val.args[1] if len(val.args) > 1 else None
+                bv = p.expand(built) if built is not None else None
+                is_ctor = isinstance(bv, ast.Call) and any(self_attr(x, 'model_factories') for x in ast.walk(bv.func)) \
+                    and len(bv.args) == 1 and isinstance(bv.args[0], ast.Name) and roles.get(bv.args[0].id) == 'options'
+                self.finding(is_ctor, 'C17.triple', mod, what + ' construction', 'published with cache.setdefault(key, %s)'
+                             % ('ctor($options)' if is_ctor else (ast.unparse(bv) if bv is not None else 'nothing')),
+                             'the value published in the cache is not the registered constructor applied to the options', line)
+                n_constructed += 1 if is_ctor else 0
+                continue
+            if (isinstance(val, ast.Call) and self_attr(val.func, 'get_model_from_cache')) or inline_call:
                 self.finding(non_none_on(p, e), 'C17.triple', mod, what + ' cached exit',
                              'returns the cached model %s' % ('only when it is not None' if non_none_on(p, e) else 'unguarded'),
                              'the cached value is returned without a None test: a miss never constructs the model', line)
@@ -1649,6 +1694,43 @@ class Reg:
         return "%s.register_model('%s', Culture.%s)" % (self.rc.name, self.name, self.member)
 
 
+def close_lambda(lam, binding):
+    """Python closure semantics for a constructor lambda created inside `for v in (a, b, ...)`: the lambda runs after the
+    loop, so a free occurrence of the loop variable denotes the LAST value; a parameter default (`c=v`) is evaluated when
+    the lambda is created and denotes this iteration's value. binding: loop variable -> (current value expr, last value expr).
+    Returns a copy of the lambda with those occurrences replaced by the value expressions."""
+    lam = copy.deepcopy(lam)
+    a = lam.args
+    pos = a.posonlyargs + a.args
+    early = {}
+    for prm, d in list(zip(pos[len(pos) - len(a.defaults):], a.defaults)) + \
+            [(q, d) for q, d in zip(a.kwonlyargs, a.kw_defaults) if d is not None]:
+        if isinstance(d, ast.Name) and d.id in binding:
+            early[prm.arg] = binding[d.id][0]
+    own = {x.arg for x in pos + a.kwonlyargs}
+
+    class S(ast.NodeTransformer):
+        def __init__(self, shadow):
+            self.shadow = shadow
+
+        def visit_Lambda(self, n):
+            inner = {x.arg for x in n.args.posonlyargs + n.args.args + n.args.kwonlyargs}
+            n.body = S(self.shadow | inner).visit(n.body)
+            return n
+
+        def visit_Name(self, n):
+            if not isinstance(n.ctx, ast.Load) or n.id in self.shadow:
+                return n
+            if n.id in early:
+                return ast.copy_location(copy.deepcopy(early[n.id]), n)
+            if n.id in binding and n.id not in own:
+                return ast.copy_location(copy.deepcopy(binding[n.id][1]), n)
+            return n
+    lam.body = S(set()).visit(lam.body)
+    ast.fix_missing_locations(lam)
+    return lam
+
+
 def registrations(rt):
     """every self.register_model(name, Culture.X, lambda) of every Recognizer subclass"""
     if rt._regs is not None:
@@ -1666,25 +1748,61 @@ def registrations(rt):
         k, fn = idx.find_method(rc, 'initialize_configuration')
         if fn is None or k is rt.Recognizer:
             raise AnalysisError('%s does not define initialize_configuration' % rc.qual)
-        n = 0
-        for node in source_order(fn):
-            if isinstance(node, ast.Call) and isinstance(node.func, ast.Attribute) and node.func.attr == 'register_model':
-                what = '%s:%d register_model' % (k.mod.rel, node.lineno)
-                if not (isinstance(node.func.value, ast.Name) and node.func.value.id == 'self'):
-                    raise AnalysisError('%s on a receiver other than self' % what)
-                b = bind_call(node, reg_fn, what)
-                by_role = {roles[p]: a for p, a in b.items() if p in roles}
-                name, cult, ctor = by_role.get('model_type'), by_role.get('culture'), by_role.get('ctor')
-                if not (isinstance(name, ast.Constant) and isinstance(name.value, str)):
-                    raise AnalysisError('%s: model type name is not a string literal' % what)
-                member = rt.culture_member(k.mod, cult) if cult is not None else None
-                if member is None:
-                    raise AnalysisError('%s: culture argument %s is not a Culture member'
-                                        % (what, ast.unparse(cult) if cult is not None else '<missing>'))
-                if not isinstance(ctor, ast.Lambda):
-                    raise AnalysisError('%s: constructor argument is not a lambda' % what)
-                out.append(Reg(rc, k, name.value, member, ctor, node))
-                n += 1
+        found = []
+
+        def one(node, binding):
+            what = '%s:%d register_model' % (k.mod.rel, node.lineno)
+            if not (isinstance(node.func.value, ast.Name) and node.func.value.id == 'self'):
+                raise AnalysisError('%s on a receiver other than self' % what)
+            b = bind_call(node, reg_fn, what)
+            by_role = {roles[p]: a for p, a in b.items() if p in roles}
+            name, cult, ctor = by_role.get('model_type'), by_role.get('culture'), by_role.get('ctor')
+            if not (isinstance(name, ast.Constant) and isinstance(name.value, str)):
+                raise AnalysisError('%s: model type name is not a string literal' % what)
+            if isinstance(cult, ast.Name) and cult.id in binding:
+                cult = binding[cult.id][0]            # argument: evaluated at call time, this iteration's value
+            member = rt.culture_member(k.mod, cult) if cult is not None else None
+            if member is None:
+                raise AnalysisError('%s: culture argument %s is not a Culture member'
+                                    % (what, ast.unparse(cult) if cult is not None else '<missing>'))
+            if not isinstance(ctor, ast.Lambda):
+                raise AnalysisError('%s: constructor argument is not a lambda' % what)
+            found.append(Reg(rc, k, name.value, member, close_lambda(ctor, binding) if binding else ctor, node))
+
+        def has_registration(node):
+            return any(isinstance(x, ast.Call) and isinstance(x.func, ast.Attribute) and x.func.attr == 'register_model'
+                       for x in ast.walk(node))
+
+        def walk(stmts, binding):
+            for st in stmts:
+                if not has_registration(st):
+                    continue
+                if isinstance(st, ast.For):
+                    what = '%s:%d' % (k.mod.rel, st.lineno)
+                    if not isinstance(st.target, ast.Name) or not isinstance(st.iter, (ast.Tuple, ast.List)) or not st.iter.elts \
+                            or st.orelse or any(isinstance(x, (ast.Break, ast.Continue)) for x in ast.walk(st)):
+                        raise AnalysisError('%s: registrations inside a loop the reader cannot unroll (%s)'
+                                            % (what, ast.unparse(st).split('\n')[0]))
+                    elts = [binding[e.id][0] if isinstance(e, ast.Name) and e.id in binding else e for e in st.iter.elts]
+                    for e in elts:
+                        if rt.culture_member(k.mod, e) is None:
+                            raise AnalysisError('%s: loop value %s is not a Culture member' % (what, ast.unparse(e)))
+                    for e in elts:
+                        walk(st.body, dict(binding, **{st.target.id: (e, elts[-1])}))
+                elif isinstance(st, (ast.While, ast.AsyncFor, ast.FunctionDef, ast.AsyncFunctionDef, ast.ClassDef)):
+                    raise AnalysisError('%s:%d registrations inside %s are not understood' % (k.mod.rel, st.lineno, type(st).__name__))
+                elif isinstance(st, (ast.If, ast.With, ast.Try)):
+                    for fld in ('body', 'orelse', 'finalbody'):
+                        walk(getattr(st, fld, []) or [], binding)
+                    for h in getattr(st, 'handlers', []) or []:
+                        walk(h.body, binding)
+                else:
+                    for node in source_order(st):
+                        if isinstance(node, ast.Call) and isinstance(node.func, ast.Attribute) and node.func.attr == 'register_model':
+                            one(node, binding)
+        walk(fn.body, {})
+        out.extend(found)
+        n = len(found)
         if n == 0:
             raise AnalysisError('%s.initialize_configuration registers nothing' % rc.qual)
     rt._regs = out
@@ -2051,7 +2169,7 @@ def check_inits(chk, rt):
 def options_forwarding(rt, mod, lam):
     """[(class name, verdict, text, line)] for every component in the lambda whose __init__ takes options"""
     out = []
-    lp = [a.arg for a in lam.args.args]
+    lp = [a.arg for a in (lam.args.posonlyargs + lam.args.args)[:1]]     # the parameter ModelFactory passes options in
     for n in source_order(lam.body):
         if not isinstance(n, ast.Call):
             continue
@@ -2136,8 +2254,11 @@ def check_registrations(chk, rt, regs=None, with_controls=True):
         is_model = rt.Model in idx.mro(c)
         n1 = name2cls.setdefault(r.name, c)
         n2 = cls2name.setdefault(c.qual, r.name)
-        nparams = len(r.lam.args.args) + len(r.lam.args.posonlyargs)
-        ok = is_model and n1 is c and n2 == r.name and nparams == 1 and not r.lam.args.vararg
+        npos = len(r.lam.args.args) + len(r.lam.args.posonlyargs)
+        nreq = npos - len(r.lam.args.defaults)
+        one_arg = (nreq <= 1 <= npos or (nreq == 0 and r.lam.args.vararg is not None)) \
+            and not any(d is None for d in r.lam.args.kw_defaults)
+        ok = is_model and n1 is c and n2 == r.name and one_arg
         msg = []
         if not is_model:
             msg.append('%s is not a Model subclass' % c.name)
@@ -2145,8 +2266,8 @@ def check_registrations(chk, rt, regs=None, with_controls=True):
             msg.append("'%s' is built as %s here and as %s elsewhere" % (r.name, c.name, n1.name))
         if n2 != r.name:
             msg.append("%s is also registered as '%s'" % (c.name, n2))
-        if nparams != 1:
-            msg.append('the constructor lambda takes %d parameters, ModelFactory calls it with exactly one (options)' % nparams)
+        if not one_arg:
+            msg.append('the constructor lambda cannot be called with exactly one argument (ModelFactory calls model_ctor(options))')
         chk.judge(ok, 'C17.reg-class', r.owner.mod.path, r.construct, 'builds %s' % c.name, '; '.join(msg), r.call.lineno)
     # language of the components
     for r in regs:
